@@ -61,86 +61,72 @@ Definition sha_pad (blk lenbytes : nat) (m : bytes) : bytes :=
   let z := if Nat.leb r room then Nat.sub room r else Nat.sub (blk + room) r in
   m ++ x80 :: zeros z ++ N_to_be lenbytes (8 * N.of_nat len).
 
-Definition shr (x n : N) : N := N.shiftr x n.
+(* Words are lists of 4-bit digits, least significant first (Word.v): 8 digits for SHA-256, 16 for
+   SHA-512/384.  Ch and Maj are written in their usual three / four operation forms,
+   Ch = z xor (x and (y xor z)), Maj = (x and y) or (z and (x or y)) -- bitwise identities of the FIPS
+   formulas.  Rotation / shift amounts n are given as (q, r) with n = 4q + r. *)
+Definition Ch (x y z : word) := wxor z (wand x (wxor y z)).
+Definition Maj (x y z : word) := wor (wand x y) (wand z (wor x y)).
+Definition wadd5 (a b c d e : word) := wadd (wadd (wadd a b) (wadd c d)) e.
 
 (* ---------- SHA-256 ---------- *)
-(* Ch and Maj in their usual three / four operation forms: Ch = z xor (x and (y xor z)),
-   Maj = (x and y) or (z and (x or y)) -- bitwise identities of the FIPS formulas.  Every word handled
-   here is below 2^32 (outputs of [add32] / [be_to_N] of 4 bytes), so rotations use [rr32], which needs
-   no final reduction.  Several additions are reduced once ([w32] of the sum). *)
-Definition rr32 (x n : N) : N := N.lor (N.shiftr x n) (N.shiftl (N.land x (N.ones n)) (32 - n)).
-Definition s256_Ch (x y z : N) := N.lxor z (N.land x (N.lxor y z)).
-Definition s256_Maj (x y z : N) := N.lor (N.land x y) (N.land z (N.lor x y)).
-Definition s256_S0 (x : N) := N.lxor (rr32 x 2) (N.lxor (rr32 x 13) (rr32 x 22)).
-Definition s256_S1 (x : N) := N.lxor (rr32 x 6) (N.lxor (rr32 x 11) (rr32 x 25)).
-Definition s256_s0 (x : N) := N.lxor (rr32 x 7) (N.lxor (rr32 x 18) (shr x 3)).
-Definition s256_s1 (x : N) := N.lxor (rr32 x 17) (N.lxor (rr32 x 19) (shr x 10)).
+Definition s256_S0 (x : word) := wxor (wrotr x 0 2) (wxor (wrotr x 3 1) (wrotr x 5 2)).     (* 2, 13, 22 *)
+Definition s256_S1 (x : word) := wxor (wrotr x 1 2) (wxor (wrotr x 2 3) (wrotr x 6 1)).     (* 6, 11, 25 *)
+Definition s256_s0 (x : word) := wxor (wrotr x 1 3) (wxor (wrotr x 4 2) (wshr x 0 3)).      (* 7, 18, >>3 *)
+Definition s256_s1 (x : word) := wxor (wrotr x 4 1) (wxor (wrotr x 4 3) (wshr x 2 2)).      (* 17, 19, >>10 *)
 
 (* message schedule, newest word first: W[t] = s1(W[t-2]) + W[t-7] + s0(W[t-15]) + W[t-16] *)
-Fixpoint s256_sched (n : nat) (wr : list N) : list N :=
+Fixpoint sha_sched (s0 s1 : word -> word) (n : nat) (wr : list word) : list word :=
   match n with
   | O => wr
   | S k =>
-    let w := w32 (s256_s1 (nth 1 wr 0) + nth 6 wr 0 + s256_s0 (nth 14 wr 0) + nth 15 wr 0) in
-    s256_sched k (w :: wr)
+    let w := wadd (wadd (s1 (nth 1 wr [])) (nth 6 wr [])) (wadd (s0 (nth 14 wr [])) (nth 15 wr [])) in
+    sha_sched s0 s1 k (w :: wr)
   end.
 
-Definition s256_round (st : list N) (kw : N * N) : list N :=
+Definition sha_round (S0 S1 : word -> word) (st : list word) (kw : word * word) : list word :=
   match st with
   | [a; b; c; d; e; f; g; h] =>
-    let t1 := h + s256_S1 e + s256_Ch e f g + fst kw + snd kw in
-    let t2 := s256_S0 a + s256_Maj a b c in
-    [w32 (t1 + t2); a; b; c; w32 (d + t1); e; f; g]
+    let t1 := wadd5 h (S1 e) (Ch e f g) (fst kw) (snd kw) in
+    let t2 := wadd (S0 a) (Maj a b c) in
+    [wadd t1 t2; a; b; c; wadd d t1; e; f; g]
   | _ => st
   end.
 
-Fixpoint map2_add (add : N -> N -> N) (a b : list N) : list N :=
-  match a, b with x :: a', y :: b' => add x y :: map2_add add a' b' | _, _ => [] end.
+Fixpoint map2w (a b : list word) : list word :=
+  match a, b with x :: a', y :: b' => wadd x y :: map2w a' b' | _, _ => [] end.
 
-Definition s256_block (st : list N) (blk : bytes) : list N :=
-  let w16 := map be_to_N (chunks_of 4 blk) in
-  let w := rev (s256_sched 48 (rev w16)) in
-  map2_add add32 st (fold_left s256_round (combine sha256_K w) st).
+Definition sha256_Kw : list word := map (word_of_N 8) sha256_K.
+Definition sha256_H0w : list word := map (word_of_N 8) sha256_H0.
+
+Definition s256_block (st : list word) (blk : bytes) : list word :=
+  let w16 := map word_of_be (chunks_of 4 blk) in
+  let w := rev (sha_sched s256_s0 s256_s1 48 (rev w16)) in
+  map2w st (fold_left (sha_round s256_S0 s256_S1) (combine sha256_Kw w) st).
 
 Definition sha256 (m : bytes) : bytes :=
-  flat_map (N_to_be 4) (fold_left s256_block (chunks_of 64 (sha_pad 64 8 m)) sha256_H0).
+  flat_map be_of_word (fold_left s256_block (chunks_of 64 (sha_pad 64 8 m)) sha256_H0w).
 
 (* ---------- SHA-512 / SHA-384 ---------- *)
-Definition rr64 (x n : N) : N := N.lor (N.shiftr x n) (N.shiftl (N.land x (N.ones n)) (64 - n)).
-Definition s512_Ch (x y z : N) := N.lxor z (N.land x (N.lxor y z)).
-Definition s512_Maj (x y z : N) := N.lor (N.land x y) (N.land z (N.lor x y)).
-Definition s512_S0 (x : N) := N.lxor (rr64 x 28) (N.lxor (rr64 x 34) (rr64 x 39)).
-Definition s512_S1 (x : N) := N.lxor (rr64 x 14) (N.lxor (rr64 x 18) (rr64 x 41)).
-Definition s512_s0 (x : N) := N.lxor (rr64 x 1) (N.lxor (rr64 x 8) (shr x 7)).
-Definition s512_s1 (x : N) := N.lxor (rr64 x 19) (N.lxor (rr64 x 61) (shr x 6)).
+Definition s512_S0 (x : word) := wxor (wrotr x 7 0) (wxor (wrotr x 8 2) (wrotr x 9 3)).     (* 28, 34, 39 *)
+Definition s512_S1 (x : word) := wxor (wrotr x 3 2) (wxor (wrotr x 4 2) (wrotr x 10 1)).    (* 14, 18, 41 *)
+Definition s512_s0 (x : word) := wxor (wrotr x 0 1) (wxor (wrotr x 2 0) (wshr x 1 3)).      (* 1, 8, >>7 *)
+Definition s512_s1 (x : word) := wxor (wrotr x 4 3) (wxor (wrotr x 15 1) (wshr x 1 2)).     (* 19, 61, >>6 *)
 
-Fixpoint s512_sched (n : nat) (wr : list N) : list N :=
-  match n with
-  | O => wr
-  | S k =>
-    let w := w64 (s512_s1 (nth 1 wr 0) + nth 6 wr 0 + s512_s0 (nth 14 wr 0) + nth 15 wr 0) in
-    s512_sched k (w :: wr)
-  end.
+Definition sha512_Kw : list word := map (word_of_N 16) sha512_K.
+Definition sha512_H0w : list word := map (word_of_N 16) sha512_H0.
+Definition sha384_H0w : list word := map (word_of_N 16) sha384_H0.
 
-Definition s512_round (st : list N) (kw : N * N) : list N :=
-  match st with
-  | [a; b; c; d; e; f; g; h] =>
-    let t1 := h + s512_S1 e + s512_Ch e f g + fst kw + snd kw in
-    let t2 := s512_S0 a + s512_Maj a b c in
-    [w64 (t1 + t2); a; b; c; w64 (d + t1); e; f; g]
-  | _ => st
-  end.
+Definition s512_block (st : list word) (blk : bytes) : list word :=
+  let w16 := map word_of_be (chunks_of 8 blk) in
+  let w := rev (sha_sched s512_s0 s512_s1 64 (rev w16)) in
+  map2w st (fold_left (sha_round s512_S0 s512_S1) (combine sha512_Kw w) st).
 
-Definition s512_block (st : list N) (blk : bytes) : list N :=
-  let w16 := map be_to_N (chunks_of 8 blk) in
-  let w := rev (s512_sched 64 (rev w16)) in
-  map2_add add64 st (fold_left s512_round (combine sha512_K w) st).
+Definition sha512_core (h0 : list word) (m : bytes) : bytes :=
+  flat_map be_of_word (fold_left s512_block (chunks_of 128 (sha_pad 128 16 m)) h0).
 
-Definition sha512_core (h0 : list N) (m : bytes) : bytes :=
-  flat_map (N_to_be 8) (fold_left s512_block (chunks_of 128 (sha_pad 128 16 m)) h0).
-
-Definition sha512 (m : bytes) : bytes := sha512_core sha512_H0 m.
-Definition sha384 (m : bytes) : bytes := firstn 48 (sha512_core sha384_H0 m).
+Definition sha512 (m : bytes) : bytes := sha512_core sha512_H0w m.
+Definition sha384 (m : bytes) : bytes := firstn 48 (sha512_core sha384_H0w m).
 
 (* NIST example vectors (FIPS 180-4 examples / SHAVS): "abc", the empty message, and the two-block messages *)
 Example sha256_abc : sha256 (bs "abc")
